@@ -5,6 +5,13 @@ clearsSideChannel  : __getitem__ resets both _jd1_sliced and _jd2_sliced to None
                      that encloses every return (so the side channel never outlives the call)
 finalizeReadsSliced: __array_finalize__ still reads _jd1_sliced/_jd2_sliced from the parent
 tupleIndexHandled  : __getitem__ derives the jd index for tuple indices (no isinstance-tuple bypass)
+hashReads          : every attribute of `self` that __hash__ reads (self.X, getattr(self, "X"), self.__dict__ counts as "__dict__")
+hashPure           : __hash__ is an expression of those attributes only (names used: self, hash, str, AttributeError; no
+                     assignment, no attribute store, no call of anything but hash/str/.tobytes)
+eqCompares         : what __eq__ demands to be equal for True: "__class__" when the guard is exactly
+                     isinstance(other, self.__class__), and every X of a conjunct np.all(self.X == other.X) of the value returned
+eqShapeGuard       : every X of a guard `if np.shape(self.X) != np.shape(other.X): return False`
+                     (a source that is not of this form gives empty lists, and the theorems that need them no longer check)
 """
 import ast
 from .util import REPO, write_if_changed
@@ -58,9 +65,88 @@ def extract():
     return clears, reads, tuple_ok
 
 
+def _self_attr(n, who="self"):
+    return n.attr if isinstance(n, ast.Attribute) and isinstance(n.value, ast.Name) and n.value.id == who else None
+
+
+def extract_hash_eq():
+    src = (REPO / "midgard" / "data" / "_time.py").read_text()
+    tree = ast.parse(src)
+    cls = next(n for n in tree.body if isinstance(n, ast.ClassDef) and n.name == "TimeBase")
+    fns = {n.name: n for n in cls.body if isinstance(n, ast.FunctionDef)}
+    hash_reads, hash_pure = [], False
+    h = fns.get("__hash__")
+    if h is not None:
+        reads = set()
+        pure = not h.decorator_list and [a.arg for a in h.args.args] == ["self"]
+        for n in ast.walk(h):
+            a = _self_attr(n)
+            if a is not None:
+                reads.add(a)
+                if not isinstance(n.ctx, ast.Load):
+                    pure = False
+            if isinstance(n, ast.Call):
+                f = n.func
+                if isinstance(f, ast.Name) and f.id in ("getattr", "hasattr") and n.args and isinstance(n.args[0], ast.Name) \
+                        and n.args[0].id == "self" and len(n.args) > 1 and isinstance(n.args[1], ast.Constant):
+                    reads.add(str(n.args[1].value))
+                ok = (isinstance(f, ast.Name) and f.id in ("hash", "str")) or (isinstance(f, ast.Attribute) and f.attr == "tobytes")
+                if not ok:
+                    pure = False
+            if isinstance(n, ast.Name) and n.id not in ("self", "hash", "str", "AttributeError"):
+                pure = False
+            if isinstance(n, (ast.Assign, ast.AugAssign, ast.AnnAssign, ast.NamedExpr, ast.Global, ast.Nonlocal, ast.Delete,
+                              ast.Lambda, ast.Await, ast.Yield, ast.YieldFrom, ast.Import, ast.ImportFrom, ast.With)):
+                pure = False
+        hash_reads, hash_pure = sorted(reads), pure and bool(reads)
+    eq_compares, eq_shape = [], []
+    e = fns.get("__eq__")
+    if e is not None and [a.arg for a in e.args.args] == ["self", "other"] and len(e.body) == 1 and isinstance(e.body[0], ast.If):
+        top = e.body[0]
+        guard_cls = ast.unparse(top.test) == "isinstance(other, self.__class__)"
+        else_ok = len(top.orelse) == 1 and ast.unparse(top.orelse[0]) == "return NotImplemented"
+        body = list(top.body)
+        ok = else_ok and body and isinstance(body[-1], ast.Return)
+        shape = []
+        for st in body[:-1]:
+            m = None
+            if isinstance(st, ast.If) and not st.orelse and len(st.body) == 1 and ast.unparse(st.body[0]) == "return False" \
+                    and isinstance(st.test, ast.Compare) and len(st.test.ops) == 1 and isinstance(st.test.ops[0], ast.NotEq):
+                l, r = st.test.left, st.test.comparators[0]
+                if all(isinstance(x, ast.Call) and ast.unparse(x.func) == "np.shape" and len(x.args) == 1 for x in (l, r)):
+                    a, b = _self_attr(l.args[0]), _self_attr(r.args[0], "other")
+                    if a is not None and a == b:
+                        m = a
+            if m is None:
+                ok = False
+            else:
+                shape.append(m)
+        cmp = []
+        if ok:
+            v = body[-1].value
+            conj = v.values if isinstance(v, ast.BoolOp) and isinstance(v.op, ast.And) else [v]
+            for c in conj:
+                m = None
+                if isinstance(c, ast.Call) and ast.unparse(c.func) == "np.all" and len(c.args) == 1 and isinstance(c.args[0], ast.Compare) \
+                        and len(c.args[0].ops) == 1 and isinstance(c.args[0].ops[0], ast.Eq):
+                    a, b = _self_attr(c.args[0].left), _self_attr(c.args[0].comparators[0], "other")
+                    if a is not None and a == b:
+                        m = a
+                if m is None:
+                    ok = False
+                else:
+                    cmp.append(m)
+        if ok:
+            eq_compares = (["__class__"] if guard_cls else []) + cmp
+            eq_shape = shape
+    return hash_reads, hash_pure, eq_compares, eq_shape
+
+
 def generate() -> bool:
     clears, reads, tuple_ok = extract()
+    hash_reads, hash_pure, eq_compares, eq_shape = extract_hash_eq()
     b = lambda x: "true" if x else "false"
+    ls = lambda l: "[" + ", ".join('"' + x.replace('"', "") + '"' for x in l) + "]"
     text = f"""/- GENERATED by translator/extract_timearray.py from /repo — do not edit -/
 namespace Midgard.Generated.TimeArrayMech
 
@@ -73,10 +159,23 @@ def finalizeReadsSliced : Bool := {b(reads)}
 /-- tuple indices set the side channel too (jd index = first entry of the tuple) -/
 def tupleIndexHandled : Bool := {b(tuple_ok)}
 
+/-- every attribute of `self` that `TimeBase.__hash__` reads -/
+def hashReads : List String := {ls(hash_reads)}
+
+/-- `__hash__` is an expression of those attributes and nothing else (no memo, no other state) -/
+def hashPure : Bool := {b(hash_pure)}
+
+/-- what `TimeBase.__eq__` demands to be equal: the class (`isinstance(other, self.__class__)`) and every `X` of a
+conjunct `np.all(self.X == other.X)` -/
+def eqCompares : List String := {ls(eq_compares)}
+
+/-- every `X` of a guard `if np.shape(self.X) != np.shape(other.X): return False` -/
+def eqShapeGuard : List String := {ls(eq_shape)}
+
 end Midgard.Generated.TimeArrayMech
 """
     return write_if_changed("TimeArrayMech.lean", text)
 
 
 if __name__ == "__main__":
-    print(extract(), "changed" if generate() else "unchanged")
+    print(extract(), extract_hash_eq(), "changed" if generate() else "unchanged")
